@@ -9,7 +9,7 @@ BASE = ("Trusted: TLC and the TLA+ semantics of the specification; the hand-writ
 T = "TLA+ spec + TLC exhaustive model checking; every emitted transition/case replayed on the real code (model-based conformance)"
 TT = "TLA+ spec + TLC exhaustive model checking of the state machine; all bounded paths of the emitted state graph replayed on the real code (spec->code) and TLC trace validation of recorded random-driver traces (code->spec)"
 TP = "TLA+ spec of the reference semantics checked by TLC on every case of the bounded input universe (each case an initial state, laws as invariants); every emitted case replayed on the real functions (model-based conformance)"
-TECH = {"C15": TT, "C34": TT, "C08": TP, "C09": TP, "C06": TP}
+TECH = {"C15": TT, "C34": TT, "C08": TP, "C09": TP, "C06": TP, "C16": TP, "C18": TP}
 CHECKS = {
  "C01": ("TreeLaws.tla: TLC checks Dec7951(Enc7951(t)) on every well-formed tree of four slices; each tree is rendered with Marshal7951/EmitJSON (with and without module prefixes), unmarshalled into an empty root, compared through the independent projector, and re-rendered byte-for-byte, for compressed/uncompressed and simple/wrapper-union packages.", "8/C01"),
  "C02": ("TreeLaws.tla: notifications model (one plain notification, one atomic per ordered list) and its application checked by TLC on every tree; each tree goes through the real TogNMINotifications (root and prefixed sub-struct) and UnmarshalNotifications into an empty root.", "8/C02"),
@@ -25,6 +25,8 @@ CHECKS = {
  "C14": ("TreeLaws.tla: operational bottom-up prune and BuildEmptyTree vs the declarative laws (nothing set is lost, no empty container remains, idempotent, build+prune preserves leaves) on every tree incl. empty containers and ordered lists with nested containers; replayed on the real PruneEmptyBranches/BuildEmptyTree under recover().", "8/C14"),
  "C15": ("OrderedMap.tla: implementation-shaped state (alloc, keys slice, valueMap) of the generated ordered map and the parent helpers against the reference insertion-ordered unique-key map; TLC checks every call law and emits the complete state graph (3 single and 3 two-part keys); every call sequence up to the tier's length bound is executed on the generated code of every ordered list of the corpus with return values and internal state compared after every call, every read-only call run in every state (returned slices scribbled over), order re-checked through JSON, gNMI and DeepCopy; traces of a model-independent random driver are validated by TLC against TraceOrderedMap.tla.", "8/C15"),
  "C34": ("KeyedList.tla: the generated New/GetOrCreate/GetOrCreateMap/Get/Append/Delete/Rename helpers as a state machine against the reference key->entry map (duplicates and nil keys rejected without change, GetOrCreate idempotent, Get never creates, Rename moves and rewrites key leaves); full state graph emitted by TLC, all call sequences up to the tier's bound replayed on the helpers of every keyed list (every key type, single and two-key), plus TLC validation of random-driver traces against TraceKeyedList.tla.", "8/C34"),
+ "C16": ("Codec.tla (mode key): every key type x value class with the class of key string it is written as; for every list of the corpus whose key has that type (single and multi-key, ordered and unordered, leafref keys in the OpenConfig-style module) the entry is built next to a decoy entry, the key strings of TogNMINotifications and Diff are compared, and GetNode / SetNode / DeleteNode are run with the produced path: they must address exactly that entry and recreate its key leaves.", "8/C16"),
+ "C18": ("Codec.tla (modes json, tv): the value space of every leaf type as symbolic classes, the canonical encoding Enc and the verdict Dec of every (type, JSON input class) and (type, TypedValue class) as denotes-v / must-reject / unspecified; TLC checks Dec(Enc(v)) = denotes v and emits every case; each is concretised (type bounds, 2^53+1, fractions, malformed strings, wrong kinds, every oneof) and decoded by Unmarshal and SetNode into every corpus leaf of the type: must-reject inputs must fail, accepted ones must store the denoted value and re-render to the same value.", "8/C18"),
  "C19": ("TreeLaws.tla Enc7951 plus the reference RFC 7951 encoder (harness/internal/conc): every tree's Marshal7951/EmitJSON output is decoded and compared token by token (JSON kind, 64-bit/decimal64 strings in RFC 7950 lexical form, base64, [null], enum names, identityref and member-name module prefixes) for both AppendModuleName settings.", "8/C19"),
  "C31": ("GnmiSet.tla MergeFrame/MergeDoc: JSON documents assigning up to 2 leaves merged into every reachable tree; replayed on the generated Unmarshal with and without unknown members and IgnoreExtraFields.", "8/C31"),
 }
